@@ -488,6 +488,11 @@ class Interp(BuiltinsMixin):
     # -- loops -------------------------------------------------------------
     def concrete_iter(self, it, path):
         """list of element values when the iterable is concrete, else None"""
+        if isinstance(it, App) and it.op in ('classattr', 'global'):
+            it = it.args[-1]
+        if isinstance(it, Coll) and not it.havoc and \
+                all(p.simple() for p in it.parts):
+            return [p.key if it.kind == 'dict' else p.val for p in it.parts]
         if isinstance(it, Tup):
             return list(it.items)
         if isinstance(it, Const) and isinstance(it.v, (str, tuple)):
